@@ -30,6 +30,7 @@ namespace {
         int cls = 0, depth = 0, yields = 0, dirt = 0;
         int frame_words = 16;
         int fp_mode = 0;
+        bool current_child = false;
         bool started = false, finished = false;
         uintptr_t stack_lo = 0, stack_hi = 0;
         int migrations = 0;
@@ -37,6 +38,7 @@ namespace {
     std::vector<TaskRec> T;
     int64_t g_size[4];
     int g_finished = 0;
+    int g_children_expected = 0, g_children_done = 0;
     bool g_exit_cb_ran[4096];
 
     struct LiveRange
@@ -136,6 +138,25 @@ namespace {
         int64_t size = g_size[t.cls];
         VH_CHECK(pika::this_thread::get_stack_size() == size, "C12.stack_size", "task %d of class %d has stack size %lld, configured %lld",
             tok, t.cls, (long long) pika::this_thread::get_stack_size(), (long long) size);
+        if (t.current_child)
+        {
+            // a child created with thread_stacksize::current runs on a stack of its creator's class
+            g_children_expected++;
+            int64_t want = size;
+            int parent = tok;
+            ex::execute(ex::with_stacksize(ex::thread_pool_scheduler{}, pika::execution::thread_stacksize::current), [want, parent] {
+                VH_CHECK(pika::this_thread::get_stack_size() == want, "C12.stack_size",
+                    "a child created with thread_stacksize::current by task %d (stack %lld) runs on a stack of %lld bytes", parent,
+                    (long long) want, (long long) pika::this_thread::get_stack_size());
+                // and can really use that much: touch half of it
+                volatile char probe_byte = 0;
+                int64_t depth = want / 2;
+                volatile char* base = &probe_byte;
+                for (int64_t off = 4096; off < depth; off += 4096) *(base - off) = (char) off;
+                g_children_done++;
+                probe("child_with_current_stacksize");
+            });
+        }
         volatile char marker = 0;
         uintptr_t here = (uintptr_t) &marker;
         // the body runs near the top of its stack: [here - usable, here + slack)
@@ -194,7 +215,7 @@ namespace {
     {
         Rng r(mix_seed(ctx.seed, 1200));
         int ntasks = (int) r.range(3, ctx.thorough ? 60 : 30);
-        ctx.params.set("rt.min_thread_count", ntasks + 16);
+        ctx.params.set("rt.min_thread_count", 2 * ntasks + 16);
         pk::draw_runtime(ctx, 6);
         // recycling: terminated thread objects are reused quickly
         if (r.chance(2, 3))
@@ -221,6 +242,7 @@ namespace {
                 op.v[3] = r.range(0, 5);
                 op.v[4] = r.chance(1, 3) ? (int64_t) r.below(8) : 0;
                 op.v[5] = r.chance(1, 3) ? (int64_t) r.below(4) : 0;
+                op.v[6] = r.chance(1, 4) ? 1 : 0;    // spawns a child with thread_stacksize::current
                 p.push_back(op);
             }
             ctx.program = p;
@@ -247,10 +269,11 @@ namespace {
             t.yields = (int) (op.v[3] & 7);
             t.dirt = (int) (op.v[4] & 7);
             t.fp_mode = (int) (op.v[5] & 3);
+            t.current_child = (op.v[6] & 1) != 0;
             ex::execute(ex::with_stacksize(ex::thread_pool_scheduler{}, classes[t.cls]), [i] { task_body(i); });
             if ((i + 1) % wave == 0) pika::wait();
         }
-        while (g_finished < n) main_pause(3000000);
+        while (g_finished < n || g_children_done < g_children_expected) main_pause(3000000);
         sim_quiesce(3000000);
         pika::wait();
         for (int i = 0; i < n; i++)
